@@ -15,8 +15,19 @@ pub const CHAINS: [&str; 8] = [
     "a-very-long-chain-name-that-goes-well-beyond-sixty-four-bytes-of-utf8-text-B",
 ];
 pub const HUB_CHAIN: &str = "axelar";
-pub const NAMES: [&str; 4] = ["Test Token", "t", "Unicode Token 🪙", ""];
-pub const SYMS: [&str; 4] = ["TST", "T", "UNI🔣", ""];
+// the empty string is last in both pools; everything before it is acceptable metadata
+pub const NAMES: [&str; 9] = [
+    "Test Token",
+    "t",
+    "Unicode Token 🪙",
+    "Padded\0\0",
+    "\0",
+    " lead and trail ",
+    "a token name of exactly 32 bytes",
+    "a token name of thirty-three bytes",
+    "",
+];
+pub const SYMS: [&str; 8] = ["TST", "T", "UNI🔣", "PAD\0", "\0", "sp ace", "SYMBOL-OF-EXACTLY-THIRTY-TWO-BYT", ""];
 pub const DECIMALS: [u32; 8] = [0, 7, 18, 255, 256, 6, 274, u32::MAX];
 
 #[derive(Serialize, Deserialize, Clone, Debug)]
